@@ -7,14 +7,18 @@ RULE = ('h_lru: br_ssl_session_cache_lru driven through its vtable (save/load) a
         '(quick) / 5 (thorough), from an empty cache and from a cache pre-filled to capacity, for store lengths 100c+{0,1,99}, c=0..4, x 4 (quick) / 8 (thorough) '
         'masking hashes (SHA-256, SHA-1 and two constant-output hash classes that let the harness choose the index order; thorough and part C add SHA-384/224/512 and MD5) '
         'x cache keys drawn from a per-configuration DRBG seed; (B) every store length 0..99; (C) random histories of 10^4 operations, capacity '
-        '1..200, ID universe 3 x capacity, kinds exact-domain / with forget / anything, ascending, descending, zig-zag and random save order. '
+        '1..200, ID universe 3 x capacity, kinds exact-domain / with forget / anything, ascending, descending, zig-zag and random save order; '
+        '(D) 16 (quick) / 64 (thorough) random histories of 7000 operations on stores above 64 KiB (capacity 656..1500, ID universe 1.25 x capacity). '
         'Histories are classified on the fly: exact domain (LRU map of capacity floor(len/100): hit/miss, values, recency), forget domain '
         '(set of two admissible refinements), re-save of an indexed ID (hit/miss not judged); safety and structure oracles hold for all. '
         'h_resume: scenarios of 2..7 connections on real engines (3 key kinds, random suite lists and version ranges, LRU store of capacity '
-        '0..4 in an exact-size block, 24 variations: unchanged, suite list changed on either side, version range changed on either side, '
+        '0..4 in an exact-size block, 29 variations: unchanged, suite list changed on either side, version range changed on either side, '
         'cache flushed, entry forgotten, evicted by k other sessions, ID truncated / bit-flipped, capacity 0 / no cache, client '
         'forget_session, reset without resume, recency at engine level, second server context, imported parameters, altered master secret, '
-        'repeated resumption); abbreviated <=> offered and held by the model and suite/version acceptable to both sides, observed on the wire '
+        'repeated resumption; suite / version of the entry altered inside the server store (entry located by its masked ID) or on the client through '
+        'br_ssl_engine_set_session_parameters, to another suite / version both sides support: never abbreviated; 1..3 full handshakes of another client '
+        'cut before the client Finished reaches the server (flight lost / Finished never sent / Finished short of its last bytes) between "A full" and '
+        '"A resume" at capacity 1..2: A still resumes, a lookup of the aborted session ID fails); abbreviated <=> offered and held by the model and suite/version acceptable to both sides, observed on the wire '
         '(independent record decoder) and by the validator wrapper. distinct = LRU configurations + (variation, key, suite, version, capacity, '
         'kind) tuples.')
 ASSUMPTIONS = [
@@ -28,7 +32,9 @@ DISTINCT = ['lru_config', 'resume_config']
 REQUIRED = ['exhaustive_histories', 'random_histories', 'cmp_exact', 'cmp_refine', 'cmp_safety', 'cmp_struct',
             'model_evictions', 'model_recency_refreshes', 'ops_resave_domain',
             'resume_cases', 'cmp_handshake_kind', 'cmp_wire_vs_validator', 'abbreviated_checked', 'full_checked',
-            'cmp_master_secret', 'cmp_randoms', 'cmp_first_record', 'data_sessions', 'expected_failures']
+            'cmp_master_secret', 'cmp_randoms', 'cmp_first_record', 'data_sessions', 'expected_failures',
+            'large_histories', 'large_store_above_64k', 'large_model_evictions', 'large_load_hits',
+            'mismatch_sessions', 'store_entries_tampered', 'aborted_handshakes', 'cmp_aborted_lookup']
 EXHAUSTIVE = ('all operation sequences over {save, load, forget} x 6 IDs up to the stated depth for capacities 0..4 and store lengths '
               '100c+{0,1,99}, from empty and from full caches; all store lengths 0..99 to a smaller depth')
 NW = 16
@@ -36,11 +42,11 @@ NW = 16
 
 def jobs(tier, seed):
     if tier == 'quick':
-        lru = ['--depth', 4, '--small-depth', 3, '--keys', 1, '--hashes', 4, '--random', 200, '--oplen', 10000]
-        res = ['--cases', 720]
+        lru = ['--depth', 4, '--small-depth', 3, '--keys', 1, '--hashes', 4, '--random', 200, '--oplen', 10000, '--large', 16]
+        res = ['--cases', 870]
         to = 600
     else:
-        lru = ['--depth', 5, '--small-depth', 4, '--keys', 1, '--hashes', 8, '--random', 2000, '--oplen', 10000]
+        lru = ['--depth', 5, '--small-depth', 4, '--keys', 1, '--hashes', 8, '--random', 2000, '--oplen', 10000, '--large', 64]
         res = ['--cases', 12000]
         to = 3600
     js = [Job('lru%d' % i, 'h_lru', ['--seed', seed, '--worker', i, '--nworkers', NW] + lru, timeout=to)
